@@ -328,7 +328,7 @@ Proof.
       destruct (apply_stmts_noinc_outputs _ _ _ _ _ _ _ _ _ _ _ Ha Hap) as [B1 B2]. subst im0 ic0.
       rewrite (strip_flat_map _ (stmt_imports env) (stmt_imports_strip env) a stmts
                  (resolve_group_strip _ _ _ _ _ Ra)) in H.
-      destruct (IH env sk fname o p1 ts1 s0 _ ic gs' frest trees s1 imR icR Hpg' Hl' Hfr H) as [C1 C2].
+      destruct (IH env sk fname o p1 ts1 s0 _ ic gs' frest trest s1 imR icR Hpg' Hl' Hfr H) as [C1 C2].
       subst imR icR. rewrite <- app_assoc. auto.
   - inversion Hpg; subst gs. rewrite flatten_both_nil in Hfl. inversion Hfl; subst flat trees.
     inversion H; subst. cbn [imports_of flat_map]. rewrite !app_nil_r. auto.
@@ -368,3 +368,632 @@ Proof.
     intros s1 t H. inversion H; subst s1 t. destruct (C s' imR icR eq_refl) as [C1 C2]. subst. reflexivity.
   - cbn [fst snd]. split; [exact A|]. split; [exact B|]. intros s1 t H. discriminate.
 Qed.
+
+(* ================================================================== *)
+(* frames that hold WITH includes: registry, constants and lock       *)
+(* ================================================================== *)
+Definition frame3 (s s' : tstate) : Prop :=
+  t_reg s' = t_reg s /\ t_consts s' = t_consts s /\ t_locked s' = t_locked s.
+Lemma frame3_refl : forall s, frame3 s s.
+Proof. intros s. repeat split; reflexivity. Qed.
+Lemma frame3_trans : forall a b c, frame3 a b -> frame3 b c -> frame3 a c.
+Proof. intros a b c [A1 [A2 A3]] [B1 [B2 B3]]. repeat split; congruence. Qed.
+Lemma frame3_add_imports : forall l s, frame3 s (add_imports l s).
+Proof. intros l s. repeat split; reflexivity. Qed.
+Lemma bind_frame3 : forall s sc sel arg v l s', bind s sc sel arg v l = SOk s' -> frame3 s s'.
+Proof.
+  intros s sc sel arg v l s' H. destruct (bind_ok_frame _ _ _ _ _ _ _ H) as [A [B [_ C]]]. repeat split; assumption.
+Qed.
+
+Lemma apply_stmts_frame_inc : forall env sk fname inc stmts s im ic,
+  (forall name s0, frame3 s0 (fst (inc name s0))) ->
+  frame3 s (fst (apply_stmts env sk fname inc stmts s im ic)).
+Proof.
+  intros env sk fname inc stmts. induction stmts as [|st rest IH]; intros s im ic Hinc.
+  - apply frame3_refl.
+  - destruct st as [sc sel arg v line|sc sel line|m isf al line|v line]; cbn [apply_stmts].
+    + destruct (String.eqb arg "").
+      * destruct (bind s _ "gin.macro" "value" v (fname, line)) as [s0|e] eqn:Hb; [|apply frame3_refl].
+        eapply frame3_trans; [eapply bind_frame3; exact Hb|apply IH; exact Hinc].
+      * destruct (should_skip s sel sk); [apply IH; exact Hinc|].
+        destruct (bind s sc sel arg v (fname, line)) as [s0|e] eqn:Hb; [|apply frame3_refl].
+        eapply frame3_trans; [eapply bind_frame3; exact Hb|apply IH; exact Hinc].
+    + destruct (should_skip s sel sk); [apply IH; exact Hinc|].
+      destruct (sm_get_match (to_key sel) (t_reg s)) as [| |k [c|]]; try apply frame3_refl. apply IH; exact Hinc.
+    + destruct (str_in m (e_modules env)); [apply IH; exact Hinc|].
+      destruct (sk_truthy sk); [apply IH; exact Hinc|apply frame3_refl].
+    + pose proof (Hinc (str_of_value v) s) as F. destruct (inc (str_of_value v) s) as [s0 r0]. cbn [fst] in F.
+      destruct r0 as [t|e]; [|exact F].
+      eapply frame3_trans; [exact F|apply IH; exact Hinc].
+Qed.
+
+(* parsing -- with any includes, at any fuel, succeeding or failing -- never changes registry, constants or lock *)
+Theorem parse_tokens_frame : forall fuel env sk fname o pending ts s im ic,
+  frame3 s (fst (parse_tokens fuel env sk fname o pending ts s im ic)).
+Proof.
+  induction fuel as [|f IH]; intros env sk fname o pending ts s im ic; [apply frame3_refl|].
+  rewrite parse_tokens_S.
+  destruct (parse_statement o pending ts) as [[[[stmts ts1] p1]|]|e]; [|apply frame3_add_imports|apply frame3_refl].
+  destruct (resolve_group s sk fname stmts) as [a|e]; [|apply frame3_refl].
+  assert (Hinc : forall name s0, frame3 s0 (fst (inc_of f env sk name s0))).
+  { intros name s0. unfold inc_of. destruct (resolve_file env name) as [[full gf]|]; [|apply frame3_refl].
+    destruct (settle (f_tokens gf)) as [ts0|[ln|c]]; try apply frame3_refl.
+    pose proof (IH env sk full (f_oracle gf) false ts0 s0 [] []) as F.
+    destruct (parse_tokens f env sk full (f_oracle gf) false ts0 s0 [] []) as [s2 r2]. cbn [fst] in F.
+    destruct r2 as [[im2 ic2]|e2]; exact F. }
+  pose proof (apply_stmts_frame_inc env sk fname (inc_of f env sk) a s im ic Hinc) as F.
+  destruct (apply_stmts env sk fname (inc_of f env sk) a s im ic) as [s1 r1]. cbn [fst] in F.
+  destruct r1 as [[im1 ic1]|e1]; [|exact F].
+  eapply frame3_trans; [exact F|apply IH].
+Qed.
+
+Theorem parse_config_frame : forall env sk fname g s, frame3 s (fst (parse_config env sk fname g s)).
+Proof.
+  intros env sk fname g s. unfold parse_config.
+  destruct (settle (f_tokens g)) as [ts|[ln|c]]; try apply frame3_refl. apply parse_tokens_frame.
+Qed.
+
+Theorem parse_config_file_frame : forall env sk name s, frame3 s (fst (parse_config_file env sk name s)).
+Proof.
+  intros env sk name s. unfold parse_config_file. destruct (resolve_file env name) as [[full g]|]; [|apply frame3_refl].
+  pose proof (parse_config_frame env sk full g s) as F.
+  destruct (parse_config env sk full g s) as [s' r]. cbn [fst] in F. destruct r as [[im ic]|e]; exact F.
+Qed.
+
+(* ================================================================== *)
+(* (B) the multi-file entry point parse_config_files_and_bindings     *)
+(* ================================================================== *)
+(* files in the order given, stopping at the first error *)
+Fixpoint parse_files (env : fenv) (sk : skip_unknown) (files : list string) (s : tstate) : tstate * sres (list itree) :=
+  match files with
+  | [] => (s, SOk [])
+  | f :: rest =>
+      let '(s1, r) := parse_config_file env sk f s in
+      match r with
+      | SErr e => (s1, SErr e)
+      | SOk t => let '(s2, r2) := parse_files env sk rest s1 in
+                 (s2, match r2 with SErr e => SErr e | SOk ts => SOk (t :: ts) end)
+      end
+  end.
+
+(* finalize, as modelled: lock; a second finalize is the RuntimeError *)
+Definition finalize_step (fin : bool) (trees : list itree) (s2 : tstate) : tstate * out :=
+  if fin then
+    if t_locked s2 then (s2, OT "Err" [OS "RuntimeError"; OL []])
+    else (set_locked true s2, OT "Ok" [OL (map itree_out trees)])
+  else (s2, OT "Ok" [OL (map itree_out trees)]).
+
+Definition files_step (env : fenv) (sk : skip_unknown) (acc : tstate * sres (list itree)) (f : string)
+  : tstate * sres (list itree) :=
+  let '(s, r) := acc in
+  match r with
+  | SErr e => (s, SErr e)
+  | SOk trees =>
+      let '(s', r') := parse_config_file env sk f s in
+      match r' with SErr e => (s', SErr e) | SOk t => (s', SOk (trees ++ [t])) end
+  end.
+
+Lemma run_call2_files : forall env s files b fin sk,
+  run_call2 env s (PFilesBindings files b fin sk) =
+  (let '(s1, r) := fold_left (files_step env sk) files (s, SOk []) in
+   match r with
+   | SErr e => (s1, serr_out e)
+   | SOk trees =>
+       let '(s2, r2) := parse_config env sk "" b s1 in
+       match r2 with SErr e => (s2, serr_out e) | SOk _ => finalize_step fin trees s2 end
+   end).
+Proof. reflexivity. Qed.
+
+Lemma fold_files_err : forall env sk files s e, fold_left (files_step env sk) files (s, SErr e) = (s, SErr e).
+Proof. intros env sk files. induction files as [|f rest IH]; intros s e; [reflexivity|]. cbn [fold_left files_step]. apply IH. Qed.
+
+Lemma fold_files : forall env sk files s acc,
+  fold_left (files_step env sk) files (s, SOk acc) =
+  (let '(s1, r) := parse_files env sk files s in
+   (s1, match r with SErr e => SErr e | SOk ts => SOk (acc ++ ts) end)).
+Proof.
+  intros env sk files. induction files as [|f rest IH]; intros s acc.
+  - cbn [fold_left parse_files]. rewrite app_nil_r. reflexivity.
+  - cbn [fold_left parse_files]. unfold files_step at 2.
+    destruct (parse_config_file env sk f s) as [s' r']. destruct r' as [t|e].
+    + rewrite IH. destruct (parse_files env sk rest s') as [s2 r2]. destruct r2 as [ts|e2]; [|reflexivity].
+      rewrite <- app_assoc. reflexivity.
+    + apply fold_files_err.
+Qed.
+
+(* the entry point = files in order (stop at first error), then the bindings, then finalize iff asked *)
+Theorem C14_files_then_bindings_then_finalize : forall env s files b fin sk,
+  run_call2 env s (PFilesBindings files b fin sk) =
+  (let '(s1, r) := parse_files env sk files s in
+   match r with
+   | SErr e => (s1, serr_out e)
+   | SOk trees =>
+       let '(s2, r2) := parse_config env sk "" b s1 in
+       match r2 with
+       | SErr e => (s2, serr_out e)
+       | SOk _ => finalize_step fin trees s2
+       end
+   end).
+Proof.
+  intros env s files b fin sk. rewrite run_call2_files, fold_files.
+  destruct (parse_files env sk files s) as [s1 r]. destruct r as [ts|e]; reflexivity.
+Qed.
+
+Lemma parse_files_app : forall env sk a b s,
+  parse_files env sk (a ++ b) s =
+  (let '(s1, r) := parse_files env sk a s in
+   match r with
+   | SErr e => (s1, SErr e)
+   | SOk ta => let '(s2, r2) := parse_files env sk b s1 in
+               (s2, match r2 with SErr e => SErr e | SOk tb => SOk (ta ++ tb) end)
+   end).
+Proof.
+  intros env sk a. induction a as [|f a IH]; intros b s.
+  - cbn [app parse_files]. destruct (parse_files env sk b s) as [s2 r2]. destruct r2; reflexivity.
+  - cbn [app parse_files]. destruct (parse_config_file env sk f s) as [s1 r1]. destruct r1 as [t|e]; [|reflexivity].
+    rewrite IH. destruct (parse_files env sk a s1) as [s2 r2]. destruct r2 as [ta|e]; [|reflexivity].
+    destruct (parse_files env sk b s2) as [s3 r3]. destruct r3; reflexivity.
+Qed.
+
+(* the first failing file ends the call: its error is the result, the state is the one it left, the later files,
+   the bindings and finalize are never looked at *)
+Theorem C14_entry_stops_at_first_error : forall env sk fs1 f fs2 b fin s s1 ts1 s2 e,
+  parse_files env sk fs1 s = (s1, SOk ts1) -> parse_config_file env sk f s1 = (s2, SErr e) ->
+  run_call2 env s (PFilesBindings (fs1 ++ f :: fs2) b fin sk) = (s2, serr_out e).
+Proof.
+  intros env sk fs1 f fs2 b fin s s1 ts1 s2 e H1 H2.
+  rewrite C14_files_then_bindings_then_finalize, parse_files_app, H1. cbn [parse_files]. rewrite H2. reflexivity.
+Qed.
+(* in particular the result does not depend on them *)
+Corollary C14_entry_later_files_untouched : forall env sk fs1 f fs2 fs2' b b' fin fin' s s1 ts1 s2 e,
+  parse_files env sk fs1 s = (s1, SOk ts1) -> parse_config_file env sk f s1 = (s2, SErr e) ->
+  run_call2 env s (PFilesBindings (fs1 ++ f :: fs2) b fin sk) =
+  run_call2 env s (PFilesBindings (fs1 ++ f :: fs2') b' fin' sk).
+Proof.
+  intros env sk fs1 f fs2 fs2' b b' fin fin' s s1 ts1 s2 e H1 H2.
+  rewrite (C14_entry_stops_at_first_error env sk fs1 f fs2 b fin s s1 ts1 s2 e H1 H2).
+  rewrite (C14_entry_stops_at_first_error env sk fs1 f fs2' b' fin' s s1 ts1 s2 e H1 H2). reflexivity.
+Qed.
+
+Lemma parse_files_frame : forall env sk files s, frame3 s (fst (parse_files env sk files s)).
+Proof.
+  intros env sk files. induction files as [|f rest IH]; intros s; [apply frame3_refl|].
+  cbn [parse_files]. pose proof (parse_config_file_frame env sk f s) as F.
+  destruct (parse_config_file env sk f s) as [s1 r1]. cbn [fst] in F. destruct r1 as [t|e]; [|exact F].
+  pose proof (IH s1) as G. destruct (parse_files env sk rest s1) as [s2 r2]. cbn [fst] in *.
+  eapply frame3_trans; eassumption.
+Qed.
+
+(* the state just before the finalize step has the lock (registry, constants) of the start state *)
+Lemma entry_frame_no_finalize : forall env s files b sk,
+  frame3 s (fst (run_call2 env s (PFilesBindings files b false sk))).
+Proof.
+  intros env s files b sk. rewrite C14_files_then_bindings_then_finalize.
+  pose proof (parse_files_frame env sk files s) as F.
+  destruct (parse_files env sk files s) as [s1 r1]. cbn [fst] in F. destruct r1 as [ts|e]; [|exact F].
+  pose proof (parse_config_frame env sk "" b s1) as G.
+  destruct (parse_config env sk "" b s1) as [s2 r2]. cbn [fst] in G.
+  destruct r2 as [[im ic]|e]; cbn [finalize_step fst]; eapply frame3_trans; eassumption.
+Qed.
+
+(* without finalize the lock is unchanged, whatever happens *)
+Theorem C14_entry_no_finalize_keeps_lock : forall env s files b sk,
+  t_locked (fst (run_call2 env s (PFilesBindings files b false sk))) = t_locked s.
+Proof. intros env s files b sk. apply (entry_frame_no_finalize env s files b sk). Qed.
+
+(* with finalize: same state as without except for the lock, which is set exactly when everything succeeded *)
+Theorem C14_entry_finalize_locks_iff_ok : forall env s files b sk,
+  let '(s0, o0) := run_call2 env s (PFilesBindings files b false sk) in
+  let '(s1, o1) := run_call2 env s (PFilesBindings files b true sk) in
+  match o0 with
+  | OT "Ok" _ => if t_locked s then s1 = s0 /\ o1 = OT "Err" [OS "RuntimeError"; OL []]
+                 else s1 = set_locked true s0 /\ o1 = o0
+  | _ => s1 = s0 /\ o1 = o0
+  end.
+Proof.
+  intros env s files b sk. rewrite !C14_files_then_bindings_then_finalize.
+  pose proof (parse_files_frame env sk files s) as F.
+  destruct (parse_files env sk files s) as [s1 r1]. cbn [fst] in F. destruct r1 as [ts|e].
+  - pose proof (parse_config_frame env sk "" b s1) as G.
+    destruct (parse_config env sk "" b s1) as [s2 r2]. cbn [fst] in G. destruct r2 as [[im ic]|e].
+    + cbn [finalize_step].
+      assert (L : t_locked s2 = t_locked s) by (destruct F as [_ [_ F3]], G as [_ [_ G3]]; congruence).
+      rewrite L. destruct (t_locked s); auto.
+    + destruct e as [f l|c ch]; cbn [serr_out]; auto.
+  - destruct e as [f l|c ch]; cbn [serr_out]; auto.
+Qed.
+
+(* ================================================================== *)
+(* (C) without skip_unknown, an unknown name is an error at every     *)
+(*     parsing entry point                                            *)
+(* ================================================================== *)
+(* the statement targets a configurable no registered name matches *)
+Definition unknown_target (s : tstate) (st : stmt) : bool :=
+  match st with
+  | SBind _ sel arg _ _ =>
+      negb (String.eqb arg "") && match sm_matching (to_key sel) (t_reg s) with [] => true | _ :: _ => false end
+  | SBlock _ sel _ => match sm_matching (to_key sel) (t_reg s) with [] => true | _ :: _ => false end
+  | _ => false
+  end.
+Definition has_unknown (s : tstate) (gs : list (list stmt)) : Prop :=
+  Exists (fun g => existsb (unknown_target s) g = true) gs.
+
+Lemma unknown_target_strip : forall s st, unknown_target s st = unknown_target s (strip st).
+Proof. intros s [sc sel arg v line|sc sel line|m isf al line|v line]; reflexivity. Qed.
+Lemma unknown_target_reg : forall s s' st, t_reg s' = t_reg s -> unknown_target s' st = unknown_target s st.
+Proof. intros s s' st H. destruct st; cbn [unknown_target]; rewrite ?H; reflexivity. Qed.
+
+Lemma bind_unknown_errors : forall s sc sel arg v l, sm_matching (to_key sel) (t_reg s) = [] ->
+  exists e, bind s sc sel arg v l = SErr e.
+Proof.
+  intros s sc sel arg v l H. unfold bind. destruct (t_locked s); [eexists; reflexivity|].
+  rewrite (proj2 (get_match_none_matching _ _ _) H). eexists; reflexivity.
+Qed.
+
+Lemma apply_stmts_unknown_errors : forall env fname inc s0 stmts s im ic,
+  forallb (fun st => negb (is_include st)) stmts = true ->
+  existsb (unknown_target s0) stmts = true -> t_reg s = t_reg s0 ->
+  exists e, snd (apply_stmts env SkFalse fname inc stmts s im ic) = SErr e.
+Proof.
+  intros env fname inc s0 stmts. induction stmts as [|st rest IH]; intros s im ic Hn Hu Hreg.
+  - discriminate.
+  - cbn [forallb] in Hn. apply andb_true_iff in Hn. destruct Hn as [Hst Hrest].
+    cbn [existsb] in Hu. rewrite <- (unknown_target_reg s0 s st Hreg) in Hu.
+    assert (Hb : forall sc sel arg v l s1, bind s sc sel arg v l = SOk s1 -> t_reg s1 = t_reg s0).
+    { intros sc sel arg v l s1 Hbind. destruct (bind_ok_frame _ _ _ _ _ _ _ Hbind) as [B1 _]. congruence. }
+    destruct st as [sc sel arg v line|sc sel line|m isf al line|v line]; cbn [apply_stmts]; cbn [unknown_target] in Hu.
+    + destruct (String.eqb arg "") eqn:Ea; cbn [negb andb orb] in Hu.
+      * destruct (bind s _ "gin.macro" "value" v (fname, line)) as [s1|e] eqn:Hbind.
+        -- apply IH; try assumption. eapply Hb; exact Hbind.
+        -- rewrite with_loc_SErr. eexists; reflexivity.
+      * rewrite C15_skip_false.
+        destruct (sm_matching (to_key sel) (t_reg s)) as [|k l] eqn:Em; cbn [orb] in Hu.
+        -- destruct (bind_unknown_errors s sc sel arg v (fname, line) Em) as [e He]. rewrite He.
+           rewrite with_loc_SErr. eexists; reflexivity.
+        -- destruct (bind s sc sel arg v (fname, line)) as [s1|e] eqn:Hbind.
+           ++ apply IH; try assumption. eapply Hb; exact Hbind.
+           ++ rewrite with_loc_SErr. eexists; reflexivity.
+    + rewrite C15_skip_false.
+      destruct (sm_matching (to_key sel) (t_reg s)) as [|k l] eqn:Em; cbn [orb] in Hu.
+      * rewrite (proj2 (get_match_none_matching _ _ _) Em). eexists; reflexivity.
+      * destruct (sm_get_match (to_key sel) (t_reg s)) as [| |k' [c|]]; try (eexists; reflexivity).
+        apply IH; assumption.
+    + cbn [orb] in Hu. destruct (str_in m (e_modules env)); [apply IH; assumption|]. cbn [sk_truthy].
+      eexists; reflexivity.
+    + cbn in Hst. discriminate.
+Qed.
+
+Lemma consume_unknown_errors : forall env fname s0 gs s im ic,
+  no_includes gs -> has_unknown s0 gs -> t_reg s = t_reg s0 ->
+  exists e, snd (consume env SkFalse fname no_inc gs s im ic) = SErr e.
+Proof.
+  intros env fname s0 gs. induction gs as [|g rest IH]; intros s im ic Hn Hu Hreg.
+  - inversion Hu.
+  - inversion Hn as [|g0 r0 Hg Hrest]; subst g0 r0. cbn [consume].
+    destruct (resolve_group s SkFalse fname g) as [g'|e] eqn:Hr; [|eexists; reflexivity].
+    assert (Hg' : forallb (fun st => negb (is_include st)) g' = true)
+      by (rewrite (resolve_group_noinc _ _ _ _ _ Hr); exact Hg).
+    destruct (apply_stmts env SkFalse fname no_inc g' s im ic) as [s1 r1] eqn:Ha.
+    inversion Hu as [g0 r0 Hhead|g0 r0 Htail]; subst g0 r0.
+    + rewrite <- (strip_existsb _ (unknown_target_strip s0) g' g (resolve_group_strip _ _ _ _ _ Hr)) in Hhead.
+      destruct (apply_stmts_unknown_errors env fname no_inc s0 g' s im ic Hg' Hhead Hreg) as [e He].
+      rewrite Ha in He. cbn [snd] in He. subst r1. eexists; reflexivity.
+    + destruct r1 as [[im1 ic1]|e1]; [|eexists; reflexivity].
+      apply IH; try assumption.
+      destruct (apply_stmts_frame _ _ _ _ _ _ _ _ _ _ Hg' Ha) as [B1 _]. congruence.
+Qed.
+
+(* parse_config(text) without skip_unknown: an include-free text with a statement targeting an unknown name never
+   succeeds *)
+Theorem C15_parse_tokens_unknown_is_error : forall fuel env fname o pending ts s im ic gs pe,
+  parse_groups fuel o pending ts = (gs, pe) -> no_includes gs -> has_unknown s gs ->
+  exists e, snd (parse_tokens fuel env SkFalse fname o pending ts s im ic) = SErr e.
+Proof.
+  intros fuel env fname o pending ts s im ic gs pe Hpg Hn Hu.
+  rewrite (C16_stream_eq_gen _ _ _ _ _ _ _ _ _ _ _ _ Hpg Hn).
+  destruct (consume_unknown_errors env fname s gs s im ic Hn Hu eq_refl) as [e He].
+  destruct (consume env SkFalse fname no_inc gs s im ic) as [s1 r]. cbn [snd] in He. subst r.
+  eexists; reflexivity.
+Qed.
+
+Theorem C15_parse_config_unknown_is_error : forall env fname g s ts gs pe,
+  settle (f_tokens g) = POk ts -> parse_groups 60 (f_oracle g) false ts = (gs, pe) -> no_includes gs ->
+  has_unknown s gs ->
+  exists e, snd (parse_config env SkFalse fname g s) = SErr e.
+Proof.
+  intros env fname g s ts gs pe Hset Hpg Hn Hu. unfold parse_config. rewrite Hset.
+  eapply C15_parse_tokens_unknown_is_error; eassumption.
+Qed.
+
+Theorem C15_parse_config_file_unknown_is_error : forall env name full g s ts gs pe,
+  resolve_file env name = Some (full, g) ->
+  settle (f_tokens g) = POk ts -> parse_groups 60 (f_oracle g) false ts = (gs, pe) -> no_includes gs ->
+  has_unknown s gs ->
+  exists e, snd (parse_config_file env SkFalse name s) = SErr e.
+Proof.
+  intros env name full g s ts gs pe Hres Hset Hpg Hn Hu. unfold parse_config_file. rewrite Hres.
+  destruct (C15_parse_config_unknown_is_error env full g s ts gs pe Hset Hpg Hn Hu) as [e He].
+  destruct (parse_config env SkFalse full g s) as [s' r]. cbn [snd] in He. subst r. eexists; reflexivity.
+Qed.
+
+Lemma existsb_ext' : forall (A : Type) (f g : A -> bool) l, (forall x, f x = g x) -> existsb f l = existsb g l.
+Proof. intros A f g l H. induction l as [|x r IH]; [reflexivity|]. cbn [existsb]. rewrite H, IH. reflexivity. Qed.
+
+Lemma has_unknown_reg : forall s s' gs, t_reg s' = t_reg s -> has_unknown s gs -> has_unknown s' gs.
+Proof.
+  intros s s' gs H Hu. unfold has_unknown in *. eapply Exists_impl; [|exact Hu].
+  intros g Hg. cbn beta in *. rewrite <- Hg. apply existsb_ext'. intros st. apply unknown_target_reg. exact H.
+Qed.
+
+(* the multi-file entry point: unknown name in the bindings string (whatever the files did) *)
+Theorem C15_entry_unknown_binding_is_error : forall env s files b fin ts gs pe,
+  settle (f_tokens b) = POk ts -> parse_groups 60 (f_oracle b) false ts = (gs, pe) -> no_includes gs ->
+  has_unknown s gs ->
+  exists e, snd (run_call2 env s (PFilesBindings files b fin SkFalse)) = serr_out e.
+Proof.
+  intros env s files b fin ts gs pe Hset Hpg Hn Hu. rewrite C14_files_then_bindings_then_finalize.
+  pose proof (parse_files_frame env SkFalse files s) as F.
+  destruct (parse_files env SkFalse files s) as [s1 r1]. cbn [fst] in F.
+  destruct r1 as [trees|e]; [|eexists; reflexivity].
+  destruct (C15_parse_config_unknown_is_error env "" b s1 ts gs pe Hset Hpg Hn
+              (has_unknown_reg s s1 gs (proj1 F) Hu)) as [e He].
+  destruct (parse_config env SkFalse "" b s1) as [s2 r2]. cbn [snd] in He. subst r2. eexists; reflexivity.
+Qed.
+
+(* ... and in one of the files (the ones before it having succeeded) *)
+Theorem C15_entry_unknown_in_file_is_error : forall env s fs1 f fs2 b fin s1 ts1 full g ts gs pe,
+  parse_files env SkFalse fs1 s = (s1, SOk ts1) ->
+  resolve_file env f = Some (full, g) ->
+  settle (f_tokens g) = POk ts -> parse_groups 60 (f_oracle g) false ts = (gs, pe) -> no_includes gs ->
+  has_unknown s gs ->
+  exists e, snd (run_call2 env s (PFilesBindings (fs1 ++ f :: fs2) b fin SkFalse)) = serr_out e.
+Proof.
+  intros env s fs1 f fs2 b fin s1 ts1 full g ts gs pe H1 Hres Hset Hpg Hn Hu.
+  pose proof (parse_files_frame env SkFalse fs1 s) as F. rewrite H1 in F. cbn [fst] in F.
+  destruct (C15_parse_config_file_unknown_is_error env f full g s1 ts gs pe Hres Hset Hpg Hn
+              (has_unknown_reg s s1 gs (proj1 F) Hu)) as [e He].
+  destruct (parse_config_file env SkFalse f s1) as [s2 r2] eqn:Hp. cbn [snd] in He. subst r2.
+  rewrite (C14_entry_stops_at_first_error env SkFalse fs1 f fs2 b fin s s1 ts1 s2 e H1 Hp).
+  eexists; reflexivity.
+Qed.
+
+(* ---------- the precise form: which error, and what has been applied ---------- *)
+(* generic: the groups before succeeded, the group resolved, the statements before [st] in it succeeded, and [st]
+   fails in the state reached: that state and that error are the outcome (nothing after is looked at) *)
+Lemma consume_fails_at : forall env sk fname gs1 g gs3 pre st post s im ic s0 im0 ic0 s1 im1 ic1 e,
+  consume env sk fname no_inc gs1 s im ic = (s0, SOk (im0, ic0)) ->
+  resolve_group s0 sk fname g = SOk (pre ++ st :: post) ->
+  apply_stmts env sk fname no_inc pre s0 im0 ic0 = (s1, SOk (im1, ic1)) ->
+  apply_stmts env sk fname no_inc (st :: post) s1 im1 ic1 = (s1, SErr e) ->
+  consume env sk fname no_inc (gs1 ++ g :: gs3) s im ic = (s1, SErr e).
+Proof.
+  intros env sk fname gs1 g gs3 pre st post s im ic s0 im0 ic0 s1 im1 ic1 e H1 Hr Hp Hf.
+  rewrite consume_app, H1. cbn [consume]. rewrite Hr, apply_stmts_app, Hp, Hf. reflexivity.
+Qed.
+
+(* the first statement that targets an unknown configurable: the parse fails with ValueError located at that
+   statement, and the state is exactly the one reached by the groups before it and the statements before it in its
+   own group (e.g. the members of a block before it) *)
+Theorem C15_first_unknown_is_ValueError : forall env fname gf s ts gs1 g gs3 pe pre sc sel arg v line post
+                                                 s0 im0 ic0 s1 im1 ic1,
+  settle (f_tokens gf) = POk ts ->
+  parse_groups 60 (f_oracle gf) false ts = (gs1 ++ g :: gs3, pe) -> no_includes (gs1 ++ g :: gs3) ->
+  consume env SkFalse fname no_inc gs1 s [] [] = (s0, SOk (im0, ic0)) ->
+  resolve_group s0 SkFalse fname g = SOk (pre ++ SBind sc sel arg v line :: post) ->
+  apply_stmts env SkFalse fname no_inc pre s0 im0 ic0 = (s1, SOk (im1, ic1)) ->
+  arg <> "" -> sm_matching (to_key sel) (t_reg s) = [] -> t_locked s = false ->
+  parse_config env SkFalse fname gf s = (s1, SErr (SEOther "ValueError" [(fname, line)])).
+Proof.
+  intros env fname gf s ts gs1 g gs3 pe pre sc sel arg v line post s0 im0 ic0 s1 im1 ic1
+         Hset Hpg Hn H1 Hr Hp Harg Hm Hl.
+  unfold parse_config. rewrite Hset. rewrite (C16_stream_eq_gen _ _ _ _ _ _ _ _ _ _ _ _ Hpg Hn).
+  unfold no_includes in Hn. apply Forall_app in Hn. destruct Hn as [Hn1 Hn2].
+  inversion Hn2 as [|g0 r0 Hg Hn3]; subst g0 r0.
+  destruct (consume_frame _ _ _ _ _ _ _ _ _ _ Hn1 H1) as [A1 [_ [_ A4]]].
+  assert (Hpre : forallb (fun st => negb (is_include st)) pre = true).
+  { pose proof (resolve_group_noinc _ _ _ _ _ Hr) as E. rewrite Hg in E. rewrite forallb_app in E.
+    apply andb_true_iff in E. apply E. }
+  destruct (apply_stmts_frame _ _ _ _ _ _ _ _ _ _ Hpre Hp) as [B1 [_ [_ B4]]].
+  rewrite (consume_fails_at env SkFalse fname gs1 g gs3 pre (SBind sc sel arg v line) post s [] [] s0 im0 ic0
+             s1 im1 ic1 (SEOther "ValueError" [(fname, line)]) H1 Hr Hp); [reflexivity|].
+  apply C15_uncovered_unknown_errors_exact.
+  - exact Harg.
+  - apply C15_skip_false.
+  - apply get_match_none_matching. congruence.
+  - congruence.
+Qed.
+
+(* the same for an unknown block header (no lock condition: a block header binds nothing) *)
+Theorem C15_first_unknown_block_is_ValueError : forall env fname gf s ts gs1 g gs3 pe pre sc sel line post
+                                                       s0 im0 ic0 s1 im1 ic1,
+  settle (f_tokens gf) = POk ts ->
+  parse_groups 60 (f_oracle gf) false ts = (gs1 ++ g :: gs3, pe) -> no_includes (gs1 ++ g :: gs3) ->
+  consume env SkFalse fname no_inc gs1 s [] [] = (s0, SOk (im0, ic0)) ->
+  resolve_group s0 SkFalse fname g = SOk (pre ++ SBlock sc sel line :: post) ->
+  apply_stmts env SkFalse fname no_inc pre s0 im0 ic0 = (s1, SOk (im1, ic1)) ->
+  sm_matching (to_key sel) (t_reg s) = [] ->
+  parse_config env SkFalse fname gf s = (s1, SErr (SEOther "ValueError" [(fname, line)])).
+Proof.
+  intros env fname gf s ts gs1 g gs3 pe pre sc sel line post s0 im0 ic0 s1 im1 ic1 Hset Hpg Hn H1 Hr Hp Hm.
+  unfold parse_config. rewrite Hset. rewrite (C16_stream_eq_gen _ _ _ _ _ _ _ _ _ _ _ _ Hpg Hn).
+  unfold no_includes in Hn. apply Forall_app in Hn. destruct Hn as [Hn1 Hn2].
+  inversion Hn2 as [|g0 r0 Hg Hn3]; subst g0 r0.
+  destruct (consume_frame _ _ _ _ _ _ _ _ _ _ Hn1 H1) as [A1 _].
+  assert (Hpre : forallb (fun st => negb (is_include st)) pre = true).
+  { pose proof (resolve_group_noinc _ _ _ _ _ Hr) as E. rewrite Hg in E. rewrite forallb_app in E.
+    apply andb_true_iff in E. apply E. }
+  destruct (apply_stmts_frame _ _ _ _ _ _ _ _ _ _ Hpre Hp) as [B1 _].
+  rewrite (consume_fails_at env SkFalse fname gs1 g gs3 pre (SBlock sc sel line) post s [] [] s0 im0 ic0
+             s1 im1 ic1 (SEOther "ValueError" [(fname, line)]) H1 Hr Hp); [reflexivity|].
+  apply C15_uncovered_unknown_block_errors.
+  - apply C15_skip_false.
+  - apply get_match_none_matching. congruence.
+Qed.
+
+(* ================================================================== *)
+(* which group shapes the parser produces                             *)
+(* ================================================================== *)
+Ltac dmh :=
+  match goal with
+  | H : context [match ?x with _ => _ end] |- _ =>
+      lazymatch x with
+      | context [match _ with _ => _ end] => fail
+      | _ => destruct x eqn:?
+      end
+  end.
+
+Lemma block_members_noinc : forall fuel o sc sel ts acc r ts',
+  forallb (fun st => negb (is_include st)) acc = true ->
+  block_members fuel o sc sel ts acc = POk (r, ts') ->
+  forallb (fun st => negb (is_include st)) r = true.
+Proof.
+  induction fuel as [|f IH]; intros o sc sel ts acc r ts' Hacc H; [discriminate|].
+  cbn [block_members] in H.
+  destruct (cur_ty ts DEDENT); [inversion H; subst; exact Hacc|].
+  destruct (parse_identifier true ts) as [[arg ts1]|]; [|discriminate].
+  destruct (expect_str "=" ts1) as [ts2|]; [|discriminate].
+  destruct (parse_value (value_fuel ts2) o true ts2) as [[v ts3]|]; [|discriminate].
+  destruct (expect_ty NEWLINE ts3) as [ts4|]; [|discriminate].
+  destruct (skip_ws true ts4) as [ts5|]; [|discriminate].
+  eapply IH; [|exact H]. rewrite forallb_app, Hacc. reflexivity.
+Qed.
+
+Lemma parse_block_noinc : forall o key line ts decl members ts',
+  parse_block o key line ts = POk (decl, members, ts') ->
+  forallb (fun st => negb (is_include st)) (decl :: members) = true.
+Proof.
+  intros o key line ts decl members ts' H. unfold parse_block in H.
+  repeat (try discriminate; dmh).
+  inversion H; subst. cbn [forallb is_include negb andb].
+  eapply block_members_noinc; [|eassumption]. reflexivity.
+Qed.
+
+Lemma parse_import_noinc : forall key line ts st ts',
+  parse_import key line ts = POk (st, ts') -> is_include st = false.
+Proof.
+  intros key line ts st ts' H. unfold parse_import in H. cbv zeta in H.
+  repeat (try discriminate; dmh);
+    repeat match goal with Hx : POk _ = POk _ |- _ => inversion Hx; subst; clear Hx end; reflexivity.
+Qed.
+
+(* every group the parser yields is either include-free (one binding / a block header with its members / one import)
+   or consists of exactly one include statement *)
+Theorem parse_statement_shape : forall o pending ts stmts ts' pending',
+  parse_statement o pending ts = POk (Some (stmts, ts', pending')) ->
+  forallb (fun st => negb (is_include st)) stmts = true \/ exists v line, stmts = [SInclude v line].
+Proof.
+  intros o pending ts stmts ts' pending' H. unfold parse_statement in H. cbv zeta in H.
+  repeat (try discriminate; dmh);
+    match goal with Hx : POk _ = POk _ |- _ => inversion Hx; subst; clear Hx end;
+    repeat match goal with Hx : POk _ = POk _ |- _ => inversion Hx; subst; clear Hx end;
+    try (left; reflexivity); try (right; eexists; eexists; reflexivity).
+  all: left; first [ eapply parse_block_noinc; eassumption
+                   | cbn [forallb]; erewrite parse_import_noinc by eassumption; reflexivity ].
+Qed.
+
+Definition group_shape_ok (g : list stmt) : Prop :=
+  forallb (fun st => negb (is_include st)) g = true \/ exists v line, g = [SInclude v line].
+
+Theorem parse_groups_shape : forall fuel o pending ts gs pe,
+  parse_groups fuel o pending ts = (gs, pe) -> Forall group_shape_ok gs.
+Proof.
+  induction fuel as [|f IH]; intros o pending ts gs pe H.
+  - cbn [parse_groups] in H. inversion H. constructor.
+  - rewrite parse_groups_S in H.
+    destruct (parse_statement o pending ts) as [[[[stmts ts1] p1]|]|e] eqn:Hps.
+    + destruct (parse_groups f o p1 ts1) as [gs' e'] eqn:Hpg. inversion H; subst gs pe.
+      constructor; [eapply parse_statement_shape; exact Hps|eapply IH; exact Hpg].
+    + inversion H. constructor.
+    + inversion H. constructor.
+Qed.
+
+(* ================================================================== *)
+(* a concrete instance: nesting depth 2, two includes in one file     *)
+(* ================================================================== *)
+(* main.gin: f.x = 1 / include 'a.gin' / f.y = 3 / include 'b.gin'
+   a.gin:    f.x = 2 / include 'c.gin'          c.gin: f.y = 7          b.gin: f.x = 9
+   flattened: f.x=1 ; f.x=2 ; f.y=7 ; f.y=3 ; f.x=9     result: f.x = 9 (b.gin:1), f.y = 3 (main.gin:3) *)
+Module C14DeepExample.
+  Import C14Example.
+  Definition inc_line (r : nat) (q : string) : list token :=
+    [tk NAME "include" r 0 7; tk STRING q r 8 15; tk NEWLINE nlc r 15 16].
+  Definition orc : oracle :=
+    [("1", Some (OZ 1)); ("2", Some (OZ 2)); ("3", Some (OZ 3)); ("7", Some (OZ 7)); ("9", Some (OZ 9));
+     ("'a.gin'", Some (OT "str" [OS "a.gin"])); ("'b.gin'", Some (OT "str" [OS "b.gin"]));
+     ("'c.gin'", Some (OT "str" [OS "c.gin"]))].
+  Definition f_main : gfile :=
+    {| f_tokens := bind_line 1 "x" "1" ++ inc_line 2 "'a.gin'" ++ bind_line 3 "y" "3" ++ inc_line 4 "'b.gin'"
+                   ++ [tk ENDMARKER "" 5 0 0]; f_oracle := orc |}.
+  Definition f_a : gfile :=
+    {| f_tokens := bind_line 1 "x" "2" ++ inc_line 2 "'c.gin'" ++ [tk ENDMARKER "" 3 0 0]; f_oracle := orc |}.
+  Definition f_c : gfile := {| f_tokens := bind_line 1 "y" "7" ++ [tk ENDMARKER "" 2 0 0]; f_oracle := orc |}.
+  Definition f_b : gfile := {| f_tokens := bind_line 1 "x" "9" ++ [tk ENDMARKER "" 2 0 0]; f_oracle := orc |}.
+  Definition env : fenv :=
+    {| e_files := [((0, "main.gin"), f_main); ((0, "a.gin"), f_a); ((0, "b.gin"), f_b); ((0, "c.gin"), f_c)];
+       e_readers := [0]; e_prefixes := [""]; e_modules := [] |}.
+  Definition gs_main : list (list stmt) :=
+    [[SBind "" "f" "x" (OZ 1) 1]; [SInclude (OT "str" [OS "a.gin"]) 2];
+     [SBind "" "f" "y" (OZ 3) 3]; [SInclude (OT "str" [OS "b.gin"]) 4]].
+  Definition flat : list (list stmt) :=
+    [[SBind "" "f" "x" (OZ 1) 1]; [SBind "" "f" "x" (OZ 2) 1]; [SBind "" "f" "y" (OZ 7) 1];
+     [SBind "" "f" "y" (OZ 3) 3]; [SBind "" "f" "x" (OZ 9) 1]].
+  Definition trees : list itree := [INode "a.gin" [] [INode "c.gin" [] []]; INode "b.gin" [] []].
+
+  (* the hypotheses of C14_flatten_any_depth / C14_tree_mirrors_includes / C14_parse_config_file_any_depth hold *)
+  Example hyps :
+    resolve_file env "main.gin" = Some ("main.gin", f_main) /\
+    settle (f_tokens f_main) = POk (f_tokens f_main) /\
+    parse_groups 60 (f_oracle f_main) false (f_tokens f_main) = (gs_main, None) /\
+    List.length gs_main < 60 /\
+    flatten_both 60 env gs_main = Some (flat, trees) /\
+    flatten_groups 60 env gs_main = Some flat /\ trees_of 60 env gs_main = Some trees.
+  Proof. repeat split; try (vm_compute; reflexivity). vm_compute. lia. Qed.
+
+  Example real_run :
+    (let '(s, r) := parse_config_file env SkFalse "main.gin" ex_s in (t_store s, t_prov s, r)) =
+    ([(("", "f"), [("x", OZ 9); ("y", OZ 3)])],
+     [(("", "f"), [("x", ("b.gin", 1)); ("y", ("main.gin", 3))])],
+     SOk (INode "main.gin" [] trees)).
+  Proof. vm_compute. reflexivity. Qed.
+  Example flat_run :
+    (let '(s, r) := consume env SkFalse "main.gin" no_inc flat ex_s [] [] in (t_store s, r)) =
+    ([(("", "f"), [("x", OZ 9); ("y", OZ 3)])], SOk ([], [])).
+  Proof. vm_compute. reflexivity. Qed.
+
+  (* (C) at work: with an empty registry the first statement targets an unknown name: ValueError, nothing applied *)
+  Example unknown_run :
+    parse_config_file env SkFalse "b.gin" (init_tstate [] []) =
+    (init_tstate [] [], SErr (SEOther "ValueError" [("b.gin", 1)])).
+  Proof. vm_compute. reflexivity. Qed.
+  Example unknown_skipped_run :
+    parse_config_file env SkTrue "b.gin" (init_tstate [] []) =
+    (init_tstate [] [], SOk (INode "b.gin" [] [])).
+  Proof. vm_compute. reflexivity. Qed.
+End C14DeepExample.
+
+Print Assumptions C14_flatten_any_depth_gen.
+Print Assumptions C14_flatten_any_depth.
+Print Assumptions flatten_both_no_includes.
+Print Assumptions flatten_both_noinc.
+Print Assumptions C14_tree_mirrors_includes.
+Print Assumptions C14_parse_config_any_depth.
+Print Assumptions C14_parse_config_file_any_depth.
+Print Assumptions parse_tokens_frame.
+Print Assumptions parse_config_frame.
+Print Assumptions parse_config_file_frame.
+Print Assumptions C14_files_then_bindings_then_finalize.
+Print Assumptions C14_entry_stops_at_first_error.
+Print Assumptions C14_entry_later_files_untouched.
+Print Assumptions C14_entry_no_finalize_keeps_lock.
+Print Assumptions C14_entry_finalize_locks_iff_ok.
+Print Assumptions C15_parse_tokens_unknown_is_error.
+Print Assumptions C15_parse_config_unknown_is_error.
+Print Assumptions C15_parse_config_file_unknown_is_error.
+Print Assumptions C15_entry_unknown_binding_is_error.
+Print Assumptions C15_entry_unknown_in_file_is_error.
+Print Assumptions C15_first_unknown_is_ValueError.
+Print Assumptions C15_first_unknown_block_is_ValueError.
+Print Assumptions parse_statement_shape.
+Print Assumptions parse_groups_shape.
+Print Assumptions C14DeepExample.hyps.
+Print Assumptions C14DeepExample.real_run.
